@@ -248,6 +248,9 @@ def run(ctx: Ctx) -> None:
 
     c06.run(Alias(ctx, "C01.R10", "pipelined requests: the parked reader is released only after the finished stream was torn down (C06.R3/R4), otherwise a buffered request is never started or loses its body", only={"C06.R3", "C06.R4"}))
 
+    from . import c13
+
+    c13.run(Alias(ctx, "C01.R13", "no request byte is lost or duplicated when the protocol is switched (prior-knowledge / h2c hand-over replays h11's trailing bytes once; the WebSocket pass-through is seeded with them) (C13.R2/R3/R4/R7)", only={"C13.R2", "C13.R3", "C13.R4", "C13.R7"}))
     from .c11 import upgrade_table
 
     ctx.rule("C01.R12", "an HTTP/1 request is served by an HTTP application unless it is a GET with Upgrade: websocket and a Connection: upgrade token (decision table shared with C11.R2); HTTP/2: unless it is CONNECT", floor=2)
